@@ -5,6 +5,7 @@ package main
 // Streams are passed as their Int ids; element k of stream s is (sel_Real s k) etc.
 
 type PreludeFn struct {
+	Poly bool // SMT text has {S} (element sort) and {T} (its tag); instance name is Name_{T}
 	Name string
 	Args []string // "stream","int","real","bool"
 	Ret  string
@@ -30,5 +31,17 @@ func init() {
 (declare-fun psum (Int Int) Real)
 (assert (forall ((s Int) (i Int)) (! (=> (<= i 0) (= (psum s i) 0.0)) :pattern ((psum s i)))))
 (assert (forall ((s Int) (i Int)) (! (=> (> i 0) (= (psum s i) (+ (psum s (- i 1)) (sel_Real s (- i 1))))) :pattern ((psum s i)))))
+`})
+	// fcount(f, k) = number of calls j < k of function value f that returned true
+	addPrelude(&PreludeFn{Name: "fcount", Args: []string{"func", "int"}, Ret: "int", Deps: []string{"fnret_Bool"}, SMT: `
+(declare-fun fcount (Int Int) Int)
+(assert (forall ((f Int) (k Int)) (! (=> (<= k 0) (= (fcount f k) 0)) :pattern ((fcount f k)))))
+(assert (forall ((f Int) (k Int)) (! (=> (> k 0) (= (fcount f k) (+ (fcount f (- k 1)) (ite (fnret_Bool f (- k 1)) 1 0)))) :pattern ((fcount f k)))))
+`})
+	// since(s,k): run-length counter (0 at k == 0 or when s[k] != s[k-1])
+	addPrelude(&PreludeFn{Name: "since", Poly: true, Args: []string{"stream", "int"}, Ret: "int", Deps: []string{"sel_{T}"}, SMT: `
+(declare-fun since_{T} (Int Int) Int)
+(assert (forall ((s Int) (k Int)) (! (=> (or (<= k 0) (not (= (sel_{T} s k) (sel_{T} s (- k 1))))) (= (since_{T} s k) 0)) :pattern ((since_{T} s k)))))
+(assert (forall ((s Int) (k Int)) (! (=> (and (> k 0) (= (sel_{T} s k) (sel_{T} s (- k 1)))) (= (since_{T} s k) (+ (since_{T} s (- k 1)) 1))) :pattern ((since_{T} s k)))))
 `})
 }
